@@ -440,6 +440,73 @@ for i, tn in enumerate(_tnames):
 render_ops.extend(type_ops)
 for rd in ('mysql', 'postgresql', 'sqlite', 'mssql', 'oracle', 'postgres', 'Snowflake'):
     fam('render_types_' + rd, [o for o in type_ops if o['rd'] == rd])
+# every operator / expression kind of the renderer once, for every dialect name
+EXPRS = ["a = b", "a != b", "a <> b", "a > b", "a < b", "a >= b", "a <= b", "a is null", "a is not null", "a is true", "a like 'x%'", "a not like 'x%'",
+         "a in (1, 2)", "a not in (1, 2)", "a in (select b from t2)", "a || b", "a and b", "a or b", "a + b", "a - b", "a * b", "a / b", "a % b", "a div b",
+         "not a", "-a", "a between 1 and 2", "a not between 1 and 2", "case when a then 1 else 2 end", "case a when 1 then 'x' end", "exists (select 1 from t2)",
+         "not exists (select 1 from t2)", "cast(a as int)", "count(*)", "count(distinct a)", "coalesce(a, b, 1)", "substring(a from 1)", "substring(a from 1 for 2)",
+         "sum(a) over (partition by b order by c)", "(select max(b) from t2)", "(a, b) in ((1, 2))", "a = (1 + 2) * 3", "interval '1 day'", "a > now() - interval '2 hour'",
+         "current_date", "last", "'it''s'", "1.5e0", "true", "null", "-1", "\"d q\"", "`b t`"]
+expr_ops = []
+for i, e_ in enumerate(EXPRS):
+    sql_ = 'select %s as r from t' % e_
+    if not outcome('mindsdb', sql_).startswith('ok'):
+        sql_ = 'select %s from t' % e_
+        if not outcome('mindsdb', sql_).startswith('ok'):
+            continue
+    for rd in ('mysql', 'postgresql', 'sqlite', 'mssql', 'oracle', 'postgres', 'Snowflake'):
+        expr_ops.append({'k': 'render', 'd': 'mindsdb', 'sql': sql_, 'rd': rd, 'fb': bool(i % 2)})
+        expr_ops.append({'k': 'render', 'd': 'mindsdb', 'sql': 'select * from t where ' + e_, 'rd': rd, 'fb': bool((i + 1) % 2)}) if outcome('mindsdb', 'select * from t where ' + e_).startswith('ok') else None
+render_ops.extend(expr_ops)
+for rd in ('mysql', 'postgresql', 'sqlite', 'mssql', 'oracle', 'postgres', 'Snowflake'):
+    fam('render_exprs_' + rd, [o for o in expr_ops if o['rd'] == rd])
+# both forms of naming a dialect to the renderer: by name and by SQLAlchemy dialect class; statements whose text depends on
+# the per-name tweaks of the constructor (mysql float cast, mssql multi-row insert) next to ordinary ones
+FORMS_SQL = ["select cast(a as float) from t1", "insert into t (a, b) values (1, 'x'), (2, 'y')", "select a from t where b = 1 limit 2",
+             "select cast(a as int8), cast(b as varchar(5)) from t", "create table t (a int, b text)", "select a from t where d > now() - interval '2 hour'"]
+form_ops = []
+for nm in ('mysql', 'mssql', 'postgresql', 'oracle', 'sqlite'):
+    for sql_ in FORMS_SQL:
+        for fb in (True, False):
+            form_ops.append({'k': 'render', 'd': 'mindsdb', 'sql': sql_, 'rd': nm, 'fb': fb})
+            form_ops.append({'k': 'render', 'd': 'mindsdb', 'sql': sql_, 'rd': 'cls:' + nm, 'fb': fb})
+render_ops.extend(form_ops)
+for nm in ('mysql', 'mssql', 'postgresql', 'oracle', 'sqlite'):
+    fam('render_forms_' + nm, [o for o in form_ops if o['rd'] in (nm, 'cls:' + nm)])
+
+# renders that FAIL (and fall back, or raise) at every nesting level, next to statements that are sensitive to renderer state
+FAILS = ["select * from a.b.c.d", "select * from (select * from db1.sch.tbl.x) as s", "with c as (select * from db1.sch.tbl.x) select * from c",
+         "select * from t where a in (select b from db1.sch.tbl.x)", "select * from t1 join (select * from db1.sch.tbl.x) as s on t1.a = s.a",
+         "select * from (select * from t union select * from db1.sch.tbl.x) as u", "select a as `x y`.z from t", "select a from t1 as x join t2 as x on 1 = 1",
+         "insert into t values (1, 2)", "select * from t where a in b", "select (select * from db1.sch.tbl.x) from t", "select native_query from int (select 1)"]
+SENSITIVE = ["select count(a), count(b) from t", "select 1, 1", "select max(a), max(b), min(a) from t group by c", "select a, a from t",
+             "select * from (select count(a), count(b) from t) as s", "with c as (select 1, 1) select * from c", "select `x y` from t", "select t.`a b` as `c d` from `e f` as t"]
+fail_ops = []
+for rd in ('mysql', 'postgresql', 'sqlite', 'mssql', 'oracle'):
+    for sql_ in FAILS + SENSITIVE:
+        if outcome('mindsdb', sql_).startswith('ok'):
+            for fb in (True, False):
+                fail_ops.append({'k': 'render', 'd': 'mindsdb', 'sql': sql_, 'rd': rd, 'fb': fb})
+render_ops.extend(fail_ops)
+for rd in ('mysql', 'postgresql', 'sqlite', 'mssql', 'oracle'):
+    fam('render_failures_' + rd, [o for o in fail_ops if o['rd'] == rd])
+
+# the same leaf (literal / star / keyword-like identifier) plain, aliased and parenthesised, in every dialect
+LEAVES = ['null', 'true', 'false', '1', "'x'", 'a', '*', 'last', 'current_date', '1.5']
+leaf_ops = []
+for lf in LEAVES:
+    forms = ['select %s from t' % lf, 'select %s as missing from t' % lf, 'select (%s) from t' % lf, 'select (%s) as p, %s from t' % (lf, lf),
+             'select coalesce(a, %s) from t where b is %s' % (lf, lf) if lf in ('null', 'true', 'false') else 'select coalesce(a, %s) from t where b = %s' % (lf, lf),
+             'select * from t where a = %s or a = (%s)' % (lf, lf)]
+    for sql_ in forms:
+        for d_ in ('mindsdb', 'mysql', 'sqlite'):
+            if outcome(d_, sql_).startswith('ok'):
+                leaf_ops.append({'k': 'parse', 'd': d_, 'sql': sql_})
+        if outcome('mindsdb', sql_).startswith('ok'):
+            leaf_ops.append({'k': 'render', 'd': 'mindsdb', 'sql': sql_, 'rd': 'mysql', 'fb': True})
+            leaf_ops.append(P(sql_.replace(' from t', ' from int.t'), cA))
+fam('leaf_decorations', leaf_ops)
+leaf_pool = leaf_ops
 # the two alias names of the renderer's dialect table next to the dialects they map to
 fam('render_aliases', [o for o in render_ops if o['sql'] in RENDER_WP and o['rd'] in ('oracle', 'Snowflake', 'postgres', 'postgresql')])
 for rd in ('mysql', 'postgresql', 'sqlite', 'mssql', 'oracle'):
@@ -556,7 +623,7 @@ probes = [
     {'k': 'render', 'd': 'mindsdb', 'sql': "select interval '1 day'", 'rd': 'oracle', 'fb': True},
 ]
 
-pool = parse_ops + mut_ops + mal_ops + plan_ops + render_ops + flow_ops + gen_plan + gen_render + gen_parse
+pool = parse_ops + mut_ops + mal_ops + plan_ops + render_ops + flow_ops + gen_plan + gen_render + gen_parse + leaf_pool
 # dedupe
 seen = set()
 pool2 = []
@@ -567,7 +634,22 @@ for op in pool:
     seen.add(k)
     pool2.append(op)
 
-out = {'catalogs': catalogs, 'pool': pool2, 'families': families, 'probes': probes, 'strata': strata}
+# static hints per op (accepted/rejected class and number of LINE events in repo code), measured now: they only steer
+# generation (fault placement ranges, stratum grouping); every judgement uses the reference computed at check time
+from dsim.sched import count_events  # noqa
+from dsim.child import resolve_scope  # noqa
+_scope = resolve_scope(['repo'])
+hints = {}
+_allops = {}
+for op in pool2 + [o for f in families.values() for o in f] + probes:
+    _allops.setdefault(O.op_key(op), op)
+for k_, op in _allops.items():
+    try:
+        obs_, n_ = count_events(lambda: O.run_op(op, O.Env(catalogs, 'op', 'op')), _scope)
+    except BaseException as e:  # noqa
+        obs_, n_ = 'err', 3000
+    hints[k_] = ['err' if obs_.startswith('err') else 'ok', n_]
+out = {'catalogs': catalogs, 'pool': pool2, 'families': families, 'probes': probes, 'strata': strata, 'hints': hints}
 dst = os.path.join(os.path.dirname(os.path.abspath(__file__)), '..', 'dsim', 'corpus', 'corpus.json')
 with open(dst, 'w') as f:
     json.dump(out, f, indent=0, sort_keys=True, ensure_ascii=False)
